@@ -139,7 +139,7 @@ Section Oracles.
     assert (Hpar : v2_params_ok hdrdec o hi lo ioff pad (enc_payload roots bs))
       by (repeat split; assumption).
     destruct (brp_run_v2 hok hdrdec o seek roots bs w hi lo ioff pad trailer Hok Hpar)
-      as (st0 & fin & Hrun & Hhw0 & _ & Hfin).
+      as (st0 & fin & Hrun & Hhw0 & _ & Hfin & _).
     cbn zeta in Hrun, Hhw0, Hfin.
     set (base := 51 + blen pad) in *. set (h := base + sec_start roots bs 0) in *.
     set (steps := fst (exp_walk false base w bs h h)) in *.
